@@ -17,5 +17,9 @@ CONSTANTS
   BugNoCloseWrong = FALSE
   BugAbsorb = FALSE
   BugInlineRefresh = TRUE
+  BugPrefixMatch = FALSE
+  BugAnySet = FALSE
+  MasterSet <- Own
+  SetNames <- NamesOwn
 INVARIANTS RefreshNotStuck
 CHECK_DEADLOCK FALSE
